@@ -268,6 +268,7 @@ func (h *HttpServer) handleStreamInit(w http.ResponseWriter, r *http.Request) {
 	if info.HasHeader && streamResult.Header != nil {
 		initLogs := callCtx.drainLogs()
 		if err := h.server.writeStreamHeader(&buf, streamResult.Header, initLogs); err != nil {
+			handlerErr = err
 			h.writeHttpError(w, http.StatusInternalServerError, err, nil)
 			return
 		}
@@ -292,10 +293,14 @@ func (h *HttpServer) handleStreamInit(w http.ResponseWriter, r *http.Request) {
 			// Batch limit reached — append continuation token
 			token, tokenErr := h.packCursorTokenFor(info.Name, callID, state, auth)
 			callToken, callErr := h.packCallToken(callID, outputSchema, auth, streamID)
+			if tokenErr == nil {
+				tokenErr = callErr
+			}
 			if tokenErr != nil {
+				// Without a continuation token the client would read the
+				// stream as finished: say that it failed instead.
 				handlerErr = tokenErr
-			} else if callErr != nil {
-				handlerErr = callErr
+				h.logIPCWriteErr("token-error-batch", info.Name, writeErrorBatch(writer, outputSchema, tokenErr, h.server.serverID, "", h.server.debugErrors))
 			} else if werr := writeStateTokenBatch(writer, outputSchema, token, callToken); werr != nil {
 				h.logIPCWriteErr("state-token-batch", info.Name, werr)
 				handlerErr = werr
@@ -311,6 +316,7 @@ func (h *HttpServer) handleStreamInit(w http.ResponseWriter, r *http.Request) {
 		// Exchange init — return state token (carry schema for dynamic methods)
 		token, err := h.packCursorTokenFor(info.Name, callID, state, auth)
 		if err != nil {
+			handlerErr = err
 			h.writeHttpError(w, http.StatusInternalServerError, err, nil)
 			return
 		}
@@ -323,6 +329,7 @@ func (h *HttpServer) handleStreamInit(w http.ResponseWriter, r *http.Request) {
 		}
 		callToken, err := h.packCallTokenWithInput(callID, outputSchema, dynInputSchema, auth, streamID)
 		if err != nil {
+			handlerErr = err
 			h.writeHttpError(w, http.StatusInternalServerError, err, nil)
 			return
 		}
@@ -693,7 +700,10 @@ func (h *HttpServer) handleProducerContinuation(ctx context.Context, w http.Resp
 		// Batch limit reached — append continuation token
 		token, tokenErr := h.packCursorTokenFor(info.Name, callID, state, auth)
 		if tokenErr != nil {
+			// Without a continuation token the client would read the stream
+			// as finished: say that it failed instead.
 			err = tokenErr
+			h.logIPCWriteErr("token-error-batch", info.Name, writeErrorBatch(writer, schema, tokenErr, h.server.serverID, "", h.server.debugErrors))
 		} else if werr := writeStateTokenBatch(writer, schema, token, nil); werr != nil {
 			h.logIPCWriteErr("state-token-batch", info.Name, werr)
 			err = werr
